@@ -44,7 +44,7 @@ Definition RbShape (st : store) (NR : registry) (k : N) : Prop :=
 
 Definition FinClaim (o : opk) (st : store) : Prop :=
   match o with
-  | ODelete d => aget (s_cfg st) d = None
+  | ODelete d => forall e, aget (regc st) d = Some e -> is_deleted (rv_ver (e_cur e)) = true -> aget (s_cfg st) d = None
   | OUpdate _ _ _ => acked_state o st
   | _ => False
   end.
@@ -101,7 +101,8 @@ Definition ClaimsQ (st : store) (Q : N -> Prop) (nd : node) : Prop :=
       FinClaim (n_op nd) st /\
       (cur st nd -> Mod st nd d /\
                     match n_op nd with
-                    | ODelete _ => aget NR d = None
+                    | ODelete _ => aget NR d = None /\
+                                   exists e0, aget (regc st) d = Some e0 /\ is_deleted (rv_ver (e_cur e0)) = true
                     | OUpdate _ _ _ => exists e0, aget (regc st) d = Some e0 /\ aget NR d = Some (RE (e_cur e0) None)
                     | _ => False
                     end)
@@ -109,10 +110,13 @@ Definition ClaimsQ (st : store) (Q : N -> Prop) (nd : node) : Prop :=
 
 Definition Claims (w : world) (i : nat) (nd : node) : Prop := ClaimsQ (w_st w) (fun d => quiet w d i) nd.
 
-(* at most one alive node per database is between its registry write and its completion *)
+(* at most one alive node per database is between its registry write and its completion -- except that a create
+   may be in flight while a delete of the same database finalizes *)
+Definition weakfin (nd : node) : bool := final_pc (n_pc nd) && is_delete (n_op nd).
 Definition OneActive (w : world) : Prop :=
   forall i j ndi ndj d, i <> j -> nth_error (w_nodes w) i = Some ndi -> nth_error (w_nodes w) j = Some ndj ->
-    busy active_pc d ndi = true -> busy active_pc d ndj = true -> False.
+    busy active_pc d ndi = true -> busy active_pc d ndj = true ->
+    (weakfin ndi = true /\ n_pc ndj = PInsCfg) \/ (weakfin ndj = true /\ n_pc ndi = PInsCfg).
 
 Definition NI (w : world) (i : nat) (nd : node) : Prop :=
   sn_cas (n_reg nd) <= scas (w_st w) /\ opwf nd /\ load_inv nd /\ (n_crashed nd = false -> Claims w i nd).
@@ -129,6 +133,7 @@ Definition RegW (w : world) (i : nat) (nd : node) (st' : store) (k : N) : Prop :
   Mod st nd k /\ quiet w k i /\
   (aget (s_cfg st) k = None \/ exists e0, aget (regc st) k = Some e0 /\ is_deleted (rv_ver (e_cur e0)) = false) /\
   (~ steady st k \/ nobusy final_pc k w i) /\
+  ((forall e', aget (sn_reg (n_reg nd)) k = Some e' -> is_deleted (rv_ver (e_cur e')) = false) \/ nobusy final_pc k w i) /\
   (if is_load (n_op nd) then ~ steady st k else k = op_db (n_op nd)).
 
 Definition CfgW (w : world) (i : nat) (nd : node) (st' : store) (d : N) : Prop :=
